@@ -15,7 +15,7 @@ function of output `o` with symbol `g` is the term constructor `g(arg,…)`.
     checkcols on|off               does class creation refuse column names that are not pairwise distinct
     begin                          make the for-node class and instance  → children | mk err <kind>
     set <k> nd | one <v> | many <v>…
-    run <completed body indices>   → res / outputs / children / wiring (table form)   (runq: res / outputs)
+    run <completed body indices>   → res / outputs / children / wiring   (runq: res / outputs)
     rrun <completed…>              as run, but the node itself is shipped to a by-value executor and merged back
     reload                         pickle round trip at rest → rl / outputs / children
     snaprun <completed…>           as run; then the state becomes the copy restored from a pickle taken while the
@@ -110,14 +110,14 @@ def setCur (cur : Cur String String) (k : String) (v : InVal String) : Cur Strin
 /-- the data wiring of the present sub-graph as the C16→C01 bridge describes it (`forSlots`): every
 non-input child with the first upstream of each of its input channels -/
 def showWire (sp : Spec String String) (st : St String String) : List String :=
-  if !sp.asDf || !decide (columns sp).Nodup then [] else
+  if !decide (columns sp).Nodup then [] else
   let P := nIn sp
   let nameOf (id : Nat) : String :=
     let x := id / 5
     if id % 5 = 0 then sp.bodyInputs.getD x "?"
     else if id % 5 = 1 then s!"item:{sp.bodyInputs.getD (x % P) "?"}:{x / P}"
     else if id % 5 = 2 then s!"body:{x}"
-    else if id % 5 = 3 then s!"rowc:{x}"
+    else if id % 5 = 3 then (if sp.asDf then s!"rowc:{x}" else s!"colc:{(collectorLabels sp).getD x "?"}")
     else "dataframe"
   let idOf : Child String → Option Nat
     | .input _ => none
@@ -125,7 +125,7 @@ def showWire (sp : Spec String String) (st : St String String) : List String :=
     | .body n => some (bodyId n)
     | .rowc n => some (rowId n)
     | .dataframe => some dfId
-    | .colc _ => none
+    | .colc c => some (rowId ((collectorLabels sp).idxOf c))
   ["wire " ++ " ".intercalate (st.children.filterMap fun c =>
     (idOf c).map fun id =>
       showChild c ++ "[" ++ ",".intercalate ((forSlots sp st.maps id).map fun slot =>
